@@ -21,18 +21,6 @@ type refFile struct {
 	wmode  bool // the real handle has entered write mode (a write-class call was accepted)
 }
 
-// entering: the next write-class call makes the real handle enter write mode, which repositions its
-// cursor to 0 (or to the end for O_APPEND) instead of keeping it.
-func (r *refFile) entering() bool {
-	if r.wmode {
-		return false
-	}
-	if r.append {
-		return r.pos != int64(len(r.data))
-	}
-	return r.pos != 0
-}
-
 // returns (n, eof, ok)
 func (r *refFile) doRead(k int) (int, bool, bool) {
 	if !r.read {
@@ -160,7 +148,6 @@ func c14Step(h afero.File, ref *refFile, tag string) {
 	case 1: // Seek(off, whence)
 		off := int64(vm.Int(tag+".off", -1, 5))
 		whence := vm.Int(tag+".whence", 0, 3)
-		vm.Known("C14-seek-beyond-eof-loses-cursor", !ref.wmode && ref.pos > int64(len(ref.data)))
 		got, err := h.Seek(off, whence)
 		want, ok := ref.doSeek(off, whence)
 		vm.Assert("C14.seek_success_like_reference", (err == nil) == ok)
@@ -170,9 +157,6 @@ func c14Step(h afero.File, ref *refFile, tag string) {
 	case 2: // Write(p)
 		p := []byte("XY")[:vm.Concretize(vm.Int(tag+".len", 1, 2))]
 		if ref.write {
-			vm.Known("C14-entering-write-mode-resets-cursor", ref.entering())
-			vm.Known("C14-write-cache-overwrite-truncates-tail", !ref.append && ref.pos != int64(len(ref.data)))
-			vm.Known("C14-append-handle-writes-at-cursor", ref.append && ref.wmode)
 			ref.wmode = true
 		}
 		n, err := h.Write(p)
@@ -190,8 +174,6 @@ func c14Step(h afero.File, ref *refFile, tag string) {
 			return
 		}
 		if ref.write {
-			vm.Known("C14-write-cache-overwrite-truncates-tail", off != int64(len(ref.data)))
-			vm.Known("C14-writeat-moves-cursor", true)
 			ref.wmode = true
 		}
 		n, err := h.WriteAt([]byte("Z"), off)
@@ -209,7 +191,6 @@ func c14Step(h afero.File, ref *refFile, tag string) {
 	case 4: // Truncate(n)
 		n := int64(vm.Int(tag+".size", -1, 6))
 		if ref.write && n >= 0 { // a negative size is refused before the handle enters write mode
-			vm.Known("C14-entering-write-mode-resets-cursor", ref.entering())
 			ref.wmode = true
 		}
 		err := h.Truncate(n)
@@ -240,7 +221,6 @@ func Harness_C14_handle_matches_byte_array() {
 		copy(v.Env.Tape.LastMember().Data, content)
 	}
 	mode := vm.Choice("mode", 5)
-	vm.Known("C14-otrunc-takes-effect-only-on-write", mode == 4 && l > 0)
 	h, ref, ok := c14Open(v, content, mode)
 	vm.Assert("C14.open_ok", ok)
 	if !ok {
@@ -317,7 +297,6 @@ func Harness_C14_read_seek_read() {
 	step("r1")
 	off := int64(vm.Int("off", -3, 4))
 	whence := vm.Int("whence", 0, 2)
-	vm.Known("C14-seek-beyond-eof-loses-cursor", ref.pos > int64(len(ref.data)))
 	got, err := h.Seek(off, whence)
 	want, sok := ref.doSeek(off, whence)
 	vm.Assert("C14.rsr_seek_success_like_reference", (err == nil) == sok)
@@ -325,7 +304,6 @@ func Harness_C14_read_seek_read() {
 		return
 	}
 	vm.Assert("C14.rsr_seek_offset", got == want)
-	vm.Known("C14-seek-beyond-eof-loses-cursor", ref.pos > int64(len(ref.data)))
 	step("r2")
 	h.Close()
 }
